@@ -763,7 +763,7 @@ theorem translate_accepts (e : Expr) : e.mustAccept = true → ∃ r, translate 
     simp only [translate, hh, if_true, hl, hr]
     by_cases hp : op = .pow
     · subst hp; exact ⟨_, emitBin_pow_ok lr rr⟩
-    · have hb' : l.boolish = false ∧ r.boolish = false := by simpa [hp] using hb
+    · have hb' : l.boolish = false ∧ r.boolish = false := by simpa using hb
       refine emitBin_ok op hop' lr rr ?_ ?_
       · intro ht; have := (translate_boolInv (N := unitNum) l lr hl ht).1; simp [hb'.1] at this
       · intro ht; have := (translate_boolInv (N := unitNum) r rr hr ht).1; simp [hb'.2] at this
